@@ -45,8 +45,12 @@ def _raises(v):
 
 
 SCHEMA = {'none': None, 'int': int, 'dbl': lambda v: v * 2, 'raises': _raises,
+          # rejects with KeyError (or TypeError for an unhashable value), not ValueError
+          'lookup': {1: 'one', 2: 'two', 'x': 'ex'}.__getitem__,
           # thorough only:
-          'str': str, 'tonone': lambda v: None, 'neg': lambda v: -v, 'len': len}
+          'inv': lambda v: 12 / v,      # ZeroDivisionError / TypeError
+          'str': str, 'tonone': lambda v: None, 'neg': lambda v: -v, 'len': len,
+          'attr': lambda v: v.real}     # AttributeError
 D = [0, 1, 2, '1', 'x', None, 1.0, True, (1,), [1], -1, 'a', '', 3, 2.5, frozenset()]
 QUICK_KEYS = 4       # the first four entries of each catalogue form the quick tier
 
@@ -72,7 +76,7 @@ def configs(tier):
     for kind in ('Input', 'InputExp'):
         for a in list(ALLOWED)[:nk]:
             for c in list(CHECK)[:nk]:
-                for s in list(SCHEMA)[:nk]:
+                for s in list(SCHEMA)[:(nk + 1 if nk else None)]:
                     out.append(dict(kind=kind, mode='graph', a=a, c=c, s=s))
                     out.append(dict(kind=kind, mode='ctor', a=a, c=c, s=s))
                     if kind == 'Input':
